@@ -99,6 +99,12 @@ func (w *c19world) target(g *zsim.Stream, f *zsim.Stream) *c19target {
 	case tkSim, tkSimFail, tkUpperScheme:
 		t.sink = zsim.NewSimSink(w.c.R, name, 1, 1)
 		t.ok = t.kind != tkSimFail
+		if f.Chance(6) {
+			// a sink whose Close reports an error: it still counts as closed, and
+			// the sinks after it are closed all the same
+			t.sink.CloseErr = fmt.Errorf("injected close error of %s", name)
+			w.c.Fault("close-error")
+		}
 		tt := t
 		w.table[name] = func(u *url.URL) (zap.Sink, error) {
 			tt.opens++
